@@ -191,3 +191,9 @@ impl ObjState for [SpeedLimitPoint] {
         errors.make_err()
     }
 }
+
+// Verification hook (inert unless built with `--cfg nrel_altrios_verif` or under `cargo kani`).
+#[cfg(any(kani, nrel_altrios_verif))]
+mod verif_hook {
+    include!(concat!(env!("NREL_ALTRIOS_VERIF_DIR"), "/hooks/track__path_track__speed_point.rs"));
+}
